@@ -452,7 +452,16 @@ pub enum Decision {
     /// mount): the one hard I/O fault of the gating runs. A run that meets it may fail loudly;
     /// it may not complete with a different table.
     ReadFault { at: u64 },
+    /// (round 11) the device the program writes its output to (the redirected stdout and every
+    /// file it creates: one disk) accepts `at` more bytes and is full from then on: the write
+    /// that crosses the mark is short, every later one fails with ENOSPC. Like the read error: a
+    /// run that meets it may fail loudly; it may not complete with a different table.
+    WriteFault { at: u64 },
 }
+
+/// length of each generator's output under the default schedule (layout, likely): where the
+/// seeded "disk full" marks are placed relative to; set once per process before any seeded run
+pub static OUT_LEN_HINT: [std::sync::atomic::AtomicU64; 2] = [std::sync::atomic::AtomicU64::new(700), std::sync::atomic::AtomicU64::new(520_000)];
 
 pub const NO_DEVIATION: u32 = u32::MAX;
 pub const NO_FAULT: u64 = u64::MAX;
@@ -473,6 +482,7 @@ impl Decision {
             Decision::Program { available, .. } => *available,
             Decision::FdLimit { n } => *n == DEFAULT_FD_LIMIT,
             Decision::ReadFault { at } => *at == NO_FAULT,
+            Decision::WriteFault { at } => *at == NO_FAULT,
         }
     }
     pub fn defaulted(&self) -> Decision {
@@ -503,6 +513,7 @@ impl Decision {
             },
             Decision::FdLimit { .. } => Decision::FdLimit { n: DEFAULT_FD_LIMIT },
             Decision::ReadFault { .. } => Decision::ReadFault { at: NO_FAULT },
+            Decision::WriteFault { .. } => Decision::WriteFault { at: NO_FAULT },
         }
     }
     /// scheduling deviations live in their own stream (keyed by step), `Open` decisions are keyed
@@ -572,6 +583,8 @@ pub struct Profile {
     pub biased: bool,
     /// one read of this run fails with EIO
     pub read_fault: bool,
+    /// the output device fills up in this run: seed of the byte count it still accepts (0 = never)
+    pub write_fault: u64,
 }
 
 impl Profile {
@@ -586,6 +599,7 @@ impl Profile {
         out_io: false,
         biased: false,
         read_fault: false,
+        write_fault: 0,
     };
 
     /// Swarm-style: every run draws its own mix.
@@ -623,6 +637,7 @@ impl Profile {
             out_io: false,
             biased: false,
             read_fault: false,
+        write_fault: 0,
         }
     }
 
@@ -668,6 +683,7 @@ impl Profile {
             out_io: false,
             biased: false,
             read_fault: false,
+        write_fault: 0,
         }
     }
 
@@ -858,6 +874,8 @@ pub struct RunStats {
     pub max_open_fds: u64,
     pub parallel_stages: u64,
     pub read_faults_injected: u64,
+    /// runs in which the output device filled up (ENOSPC) while the program was writing
+    pub write_faults_injected: u64,
 }
 
 impl RunStats {
@@ -899,6 +917,7 @@ impl RunStats {
         self.max_open_fds = self.max_open_fds.max(o.max_open_fds);
         self.parallel_stages += o.parallel_stages;
         self.read_faults_injected += o.read_faults_injected;
+        self.write_faults_injected += o.write_faults_injected;
     }
 }
 
@@ -1102,6 +1121,14 @@ pub struct World {
     pub read_fault_decided: bool,
     /// the hard fault of this run is the gating one (EIO on a read): failing loudly is fine
     pub gating_fault: bool,
+    /// (round 11) the output device of this run: decided at the first data write
+    pub write_fault_decided: bool,
+    /// bytes the output device still accepts (None = it never fills up)
+    pub out_budget: Option<u64>,
+    /// a write of this run met the full device: failing loudly is fine
+    pub write_faulted: bool,
+    /// 0 = generate_layout, 1 = generate_likelysubtags (index into OUT_LEN_HINT)
+    pub gen_index: usize,
     pub intruded: bool,
     pub intruder_result: Option<Box<crate::sim::RunResult>>,
     pub inodes: Inodes,
@@ -1118,6 +1145,10 @@ thread_local! {
 pub fn install(w: World) {
     WORLD.with(|c| *c.borrow_mut() = Some(w));
     IN_SIM.with(|f| f.set(true));
+}
+
+pub fn installed() -> bool {
+    WORLD.with(|c| c.try_borrow().map(|w| w.is_some()).unwrap_or(false))
 }
 
 pub fn uninstall() -> World {
@@ -1205,6 +1236,10 @@ impl World {
             intruder: None,
             read_fault_decided: false,
             gating_fault: false,
+            write_fault_decided: false,
+            out_budget: None,
+            write_faulted: false,
+            gen_index: 0,
             intruded: false,
             intruder_result: None,
             inodes: Inodes::default(),
@@ -1245,6 +1280,7 @@ impl World {
         if let Some(l) = self.fd_limit {
             if self.open_fds + 1 > l as u64 {
                 self.fd_exhausted = true;
+                crate::isolate::child_fault_notice();
                 self.stats.emfile += 1;
                 self.event("emfile", self.open_fds, 0);
                 return Err(());
@@ -1702,6 +1738,7 @@ impl World {
         if fired {
             self.stats.timeouts_fired += 1;
             self.stalled = true;
+            crate::isolate::child_fault_notice();
         }
         self.event("timeout", fired as u64, 0);
         self.trace.push(Decision::Timeout { fired });
@@ -1747,6 +1784,78 @@ impl World {
         }
     }
 
+    /// At the first data write of a run: does the device the output goes to fill up, and after how
+    /// many more bytes?
+    pub fn decide_write_fault(&mut self) {
+        if self.write_fault_decided {
+            return;
+        }
+        self.write_fault_decided = true;
+        if self.hard.is_some() && !self.gating_fault {
+            return; // a run of the non-gating hard-fault exploration has its one fault already
+        }
+        let at = match &mut self.mode {
+            Mode::Random { profile, .. } => {
+                if profile.write_fault != 0 && profile.cover_iter.is_none() {
+                    // the size of the program's output under the default schedule (hint, set once
+                    // per process before any seeded run): the mark falls in the first kilobyte,
+                    // anywhere, or in the last 16 KiB (what a buffered writer still holds when
+                    // the program is about to return)
+                    let len = OUT_LEN_HINT[self.gen_index.min(1)].load(std::sync::atomic::Ordering::Relaxed).max(1);
+                    let mut r = Rng::new(profile.write_fault);
+                    match r.below(8) {
+                        0..=2 => r.below(len.min(1024)),
+                        3..=4 => r.below(len),
+                        _ => len - 1 - r.below(len.min(16 * 1024)),
+                    }
+                } else {
+                    NO_FAULT
+                }
+            }
+            Mode::Replay(ReplayPlan { q, .. }) => match q.front() {
+                Some(Decision::WriteFault { at }) => {
+                    let a = *at;
+                    q.pop_front();
+                    a
+                }
+                _ => NO_FAULT,
+            },
+        };
+        if at != NO_FAULT {
+            self.out_budget = Some(at);
+            self.event("write_fault_planned", at, 0);
+            self.trace.push(Decision::WriteFault { at });
+        }
+    }
+
+    /// The program hands `len` bytes to its output device (stdout or a file it writes). Returns
+    /// how many of them the device takes and whether it is full now (the caller reports ENOSPC
+    /// for what was not taken).
+    pub fn admit_write(&mut self, len: usize) -> (usize, bool) {
+        if self.frozen || len == 0 {
+            return (len, false);
+        }
+        self.decide_write_fault();
+        match self.out_budget {
+            None => (len, false),
+            Some(b) => {
+                let a = (len as u64).min(b);
+                self.out_budget = Some(b - a);
+                if (a as usize) < len {
+                    if !self.write_faulted {
+                        self.stats.write_faults_injected += 1;
+                    }
+                    self.write_faulted = true;
+                    crate::isolate::child_fault_notice();
+                    self.event("enospc", a, len as u64);
+                    (a as usize, true)
+                } else {
+                    (len, false)
+                }
+            }
+        }
+    }
+
     /// Is the optional external tool `name` installed on this simulated machine?
     pub fn decide_program(&mut self, name: &str) -> bool {
         let available = match &mut self.mode {
@@ -1767,6 +1876,7 @@ impl World {
         if !available {
             self.stats.programs_missing += 1;
             self.missing_program = true;
+            crate::isolate::child_fault_notice();
         }
         self.event("program", available as u64, 0);
         self.trace.push(Decision::Program {
